@@ -206,6 +206,18 @@ def systematic_flat():
     FL2 = [basic("p", 3), basic("q", 2)]
     cases.append(case(FL2, cross([1, 2], [1, 2], [K("LatinSquare", fs=[1, 2])]), "A", ["LatinSquare"], "sys-latin-32"))
     cases.append(case(FL2, cross([1, 2], [1], [K("LatinSquare", fs=[1, 2]), K("MinimumTrials", k=6)]), "A", ["LatinSquare"], "sys-latin-uncrossed"))
+    # Exclude of a derived level while the crossing has a preamble (crossed transition): the preamble trials
+    # are free except for constraints, so the excluded level must not show up there either
+    for X, xn in [([1, 2, 4], "x124"), ([1, 4], "x14"), ([2, 4], "x24")]:
+        cases.append(case(F, cross(full, X, [K("Exclude", f=3, l=1)], False), "A", ["Exclude-derived", "preamble", xn], "sys-%s-exd-pre" % xn))
+        cases.append(case(F, cross(full, X, [K("Exclude", f=2, l=1)], False), "A", ["Exclude", "preamble", xn], "sys-%s-exb-pre" % xn))
+    # a windowed factor derived from another windowed factor, crossed (preamble = start of the outer window)
+    F6 = [basic("color", 2)]
+    F6.append(derived(F6, "rep", [1], "transition", table=eq_table(F6, [1], 2)))
+    F6.append(derived(F6, "chg", [2], "window", width=2, table=eq_table(F6, [2], 2)))
+    cases.append(case(F6, cross([1, 2, 3], [1, 3]), "A", ["window-of-window", "crossed"], "sys-ww-crossed"))
+    cases.append(case(F6, cross([1, 2, 3], [3]), "A", ["window-of-window", "crossed"], "sys-ww-crossed-alone"))
+    cases.append(case(F6, cross([1, 2, 3], [1]), "A", ["window-of-window", "uncrossed"], "sys-ww-uncrossed"))
     # require_complete_crossing with impossible combinations
     Fi = [basic("a", 2), basic("b", 2)]
     Fi.append(derived(Fi, "e", [1, 2], "within", table=eq_table(Fi, [1, 2])))
@@ -231,7 +243,7 @@ def systematic_corner():
     # ExactlyK with k beyond the number of trials, k = 0; Pin outside the sequence
     for X in ([1], [1, 2]):
         T = 2 if len(X) == 1 else 4
-        for k in (0, T, T + 1, T + 3):
+        for k in (T, T + 1, T + 3):
             out.append(case(F, cross(full, X, [K("ExactlyK", k=k, f=2, l=1)]), "B", ["ExactlyK", "k-out-of-range"],
                             "cor-exk%d-x%d" % (k, len(X))))
         for i in (T, T + 2, -T, -T - 1):
